@@ -14,16 +14,27 @@ def check(run):
     n, s = generic.gen_replay(run, "CtxLifecycle", "MC_CtxLifecycle_thorough.cfg" if run.tier == "thorough" else "MC_CtxLifecycle.cfg", "TestC05", "ctxlifecycle", workers=4)
     if s["cases"] != n:
         raise core.Inconclusive("driver did not consume every case")
-    run.evaluations = n
-    run.traces = n
-    run.nontrivial = s["probe_served_by_the_context_of_the_preceding_request"]
+    # the same histories run by 8 goroutines at once against one app
+    import json, os
+    outp = os.path.join(run.work, "conc_out.txt")
+    run.drive(run._binary, "TestC05Conc", env={"VERIF_CASES": os.path.join(run.work, "ctxlifecycle_cases.ndjson"), "VERIF_OUT": outp}, timeout=1800, tag="conc")
+    viol, _samples, sc = generic.summary_of(outp)
+    if sc is None:
+        raise core.Inconclusive("driver TestC05Conc did not finish")
+    for v in viol:
+        run.violation(v)
+    run.evaluations = n + sc["probes"]
+    run.traces = run.evaluations
+    run.nontrivial = s["probe_served_by_the_context_of_the_preceding_request"] + sc["requests_served_by_a_context_last_used_on_another_goroutine"]
+    run.extra["concurrent_summary"] = sc
     run.exhaustive = True
     run.rule = ("TLC checks the reset discipline on the taint model (NoForeignData; forgetting one field must fail) and enumerates every history of <= 2 (thorough: 3) "
                 "preceding requests from 15 kinds (params, locals, view bindings, redirect with messages / input, full / partial / truncated flash cookies, query binding "
                 "with and without automatic error handling, response headers and cookies, base URL, handler error, 405) followed by each of 5 probes; each history is served "
                 "from wire bytes on one recycled RequestCtx on one goroutine with GC off and the probe's observation vector (params, locals, messages, old input, bind result "
                 "and mode, route, base URL, view bindings, status, response headers, body) is compared with a fresh app's. Non-trivial = probes really served by the pooled "
-                "context of the preceding request (pointer identity).")
+                "context of the preceding request (pointer identity). The same histories are then run by 8 goroutines at once against one app (contexts migrate "
+                "between goroutines through the shared pools) with the same comparison.")
     run.extra["driver_summary"] = s
     run.extra["violations_by_check"] = dict(collections.Counter(v["check"] for v in run.violations))
-    run.assumptions = ["single goroutine (concurrent mixes are not explored here)", "sync.Pool hands back the context released last (measured, not assumed: see distinct_nontrivial)"]
+    run.assumptions = ["the concurrent run has no controlled schedule (Go scheduler decides the mix; migrations are counted)", "sync.Pool hands back the context released last (measured, not assumed: see distinct_nontrivial)"]
